@@ -18,6 +18,7 @@ type c10case struct {
 	seq    []sym
 	gaps   []time.Duration
 	silent bool
+	stall  bool // the broker has stopped reading: the gateway's write of the MQTT CONNECT blocks
 }
 
 func symByName(n string) sym {
@@ -64,6 +65,10 @@ func c10cases() []c10case {
 				}
 				// client falls silent after the prefix (broker would answer); for the full flow the broker is silent
 				out = append(out, c10case{auth: f.auth, seq: seq, gaps: gaps, silent: full})
+				if full && g%3 == 0 {
+					// the broker accepted the TCP connection but reads nothing (4 bytes of buffer): the write of the MQTT CONNECT blocks
+					out = append(out, c10case{auth: f.auth, seq: seq, gaps: gaps, silent: true, stall: true})
+				}
 				// re-CONNECT in the middle: the bound counts from the last CONNECT
 				if plen >= 1 && g%3 == 1 {
 					seq2 := append(append([]sym{}, seq...), symByName(f.syms[0]))
@@ -91,13 +96,22 @@ func TestC10(t *testing.T) {
 		N:    func(*rt.Run) int { return len(cases) },
 		Run: func(t *testing.T, c *rt.Case, i int, rng *rand.Rand) *GWRun {
 			cs := cases[i]
+			if cs.stall {
+				g := runConnectSeq(t, c, cs.seq, cs.auth, 2, 0, cs.silent, cs.gaps, func(s *world.Session) {
+					// an unbuffered transport (as net.Pipe is): nothing is taken off the gateway's hands until the broker reads
+					s.StallBroker(4)
+					s.MQ.B.Inject([]byte{0, 0, 0, 0})
+				})
+				g.Desc += " broker-not-reading"
+				return g
+			}
 			return runConnectSeq(t, c, cs.seq, cs.auth, 2, 0, cs.silent, cs.gaps)
 		},
 	}
 	runWorkloads(t, r, []Workload{wl}, func(g *GWRun) ([]monitors.V, int) {
 		return judgeC10(g.Items)
 	})
-	r.Finish(fmt.Sprintf("all %d cases: every prefix of the 5 connect flows {plain, will, auth, auth+will, auth+will(ka 65535, empty will message)} after which the client is silent, the complete flow with a broker that never answers, every assignment of gaps {0,1 s,4.9 s} between the client's steps, a repeated CONNECT (bound counts from the last one), a CONNECT the gateway refuses (keep-alive 0, protocol ID 2) in the middle of the exchange, and stray repeated exchange packets. Oracle in virtual time: if no broker CONNACK arrived, the handler returns no later than 5 s + 100 ms after the last CONNECT and the gateway has closed the broker connection by then. exhaustive for this stated space.", len(cases)), nil)
+	r.Finish(fmt.Sprintf("all %d cases: every prefix of the 5 connect flows {plain, will, auth, auth+will, auth+will(ka 65535, empty will message)} after which the client is silent, the complete flow with a broker that never answers and with one that does not even read (the gateway's write of the MQTT CONNECT blocks), every assignment of gaps {0,1 s,4.9 s} between the client's steps, a repeated CONNECT (bound counts from the last one), a CONNECT the gateway refuses (keep-alive 0, protocol ID 2) in the middle of the exchange, and stray repeated exchange packets. Oracle in virtual time: if no broker CONNACK arrived, the handler returns no later than 5 s + 100 ms after the last CONNECT and the gateway has closed the broker connection by then. exhaustive for this stated space.", len(cases)), nil)
 }
 
 func judgeC10(items []monitors.Item) (vs []monitors.V, checked int) {
